@@ -148,11 +148,15 @@ impl Sim {
     pub fn new(cfg: Cfg) -> Self {
         let nodes: Vec<Node> = (0..cfg.n_nodes).map(|i| Node::new(i, cfg.seed)).collect();
         let n = cfg.n_nodes;
+        let mut shadow = Shadow::default();
+        for node in &nodes {
+            shadow.key_ids.insert(node.device_id, node.sign_key_id.clone());
+        }
         Self {
             cfg,
             nodes,
             gid: None,
-            shadow: Shadow::default(),
+            shadow,
             stats: Stats::default(),
             found: Vec::new(),
             step_no: 0,
@@ -293,6 +297,7 @@ impl Sim {
                             }
                         }
                         self.shadow.record(c.clone(), r);
+                        self.check_id_recomputation(c);
                     }
                 }
                 self.nodes[r].held = cmds.iter().map(|c| (c.id, c.digest())).collect();
@@ -305,6 +310,23 @@ impl Sim {
                 self.anomaly(e);
                 self.dead = true;
             }
+        }
+    }
+
+    /// Self-check of the hashing adversary: the id of every sealed signed command must be
+    /// reproducible from public data, otherwise the Re* mutations silently do not apply.
+    fn check_id_recomputation(&mut self, c: &OwnedCmd) {
+        let Some(h) = self.shadow.honest.get(&c.id) else { return };
+        let Some(v) = &h.vm else { return };
+        let Some(p) = self.nodes.iter().position(|n| n.device_id == v.author_id) else { return };
+        let pid = match c.parent {
+            Prior::Single(a) => a.id,
+            _ => CmdId::default(),
+        };
+        if crate::node::recompute_cmd_id(&self.nodes[p].sign_key_id, &v.kind, &pid, &v.serialized_fields, &v.signature) == c.id {
+            self.stats.bump("id_recomputed_from_public_data.ok");
+        } else {
+            self.stats.bump("id_recomputed_from_public_data.MISMATCH");
         }
     }
 
@@ -821,6 +843,7 @@ impl Sim {
             effects: Vec::new(),
         };
         let devices = self.devices();
+        let key_ids: Vec<Vec<u8>> = self.nodes.iter().map(|n| n.sign_key_id.clone()).collect();
         let mut k = 0usize;
         while responder.ready() && k < 64 && !self.dead {
             let mut target = vec![0u8; MAX_SYNC_MESSAGE_SIZE];
@@ -856,7 +879,7 @@ impl Sim {
             }
             let mut applied: Option<MutKind> = None;
             if let Some(m) = muts.get(k).copied().flatten() {
-                if mutate::apply(&mut bytes, &m, &self.shadow, &devices) {
+                if mutate::apply(&mut bytes, &m, &self.shadow, &devices, &key_ids) {
                     applied = Some(m.kind);
                     self.stats.bump(&format!("fault.{:?}", m.kind));
                     self.note(&format!("{ctx} response {k} mutated {:?}", m));
